@@ -10,6 +10,20 @@ fn main() {
         std::process::exit(2);
     }
     let (id, tier) = (args[1].as_str(), args[2].as_str());
+    // Resident-set watchdog: a check that runs away must end as a machinery error (exit 2), never take the
+    // machine down or be mistaken for a verdict. Limit in GB via VERIF_MAX_RSS_GB (default 24).
+    let limit_gb: u64 = std::env::var("VERIF_MAX_RSS_GB").ok().and_then(|s| s.parse().ok()).unwrap_or(24);
+    let name = format!("{id} {tier}");
+    std::thread::spawn(move || loop {
+        std::thread::sleep(std::time::Duration::from_millis(500));
+        if let Ok(s) = std::fs::read_to_string("/proc/self/statm") {
+            let pages: u64 = s.split_whitespace().nth(1).and_then(|x| x.parse().ok()).unwrap_or(0);
+            if pages * 4096 > limit_gb << 30 {
+                eprintln!("MACHINERY-ERROR: {name}: resident set exceeded {limit_gb} GB; aborting (no verdict)");
+                std::process::exit(2);
+            }
+        }
+    });
     let mc = |f: fn(&Ctx)| {
         let ctx = Ctx::new(id, tier, "model_checking");
         f(&ctx);
